@@ -64,7 +64,7 @@ class ModuleReader(Reader):
         (self.object.y,) = unpack("<i", data)
 
     def process_SZZZ(self, data):
-        (self.object.layer,) = unpack("<I", data)
+        (self.object.layer,) = unpack("<i", data)
 
     def process_SSCL(self, data):
         (self.object.scale,) = unpack("<I", data)
